@@ -112,6 +112,16 @@ def _w_init(modname, use_driver):
 
 
 def _w_eval(item):
+    # the alarm may go off between the end of evaluate() and signal.alarm(0) (seen once under heavy load in the
+    # thorough tier): a CaseTimeout escaping the inner try must stay a timed-out CASE, not a crashed run
+    try:
+        return _w_eval_inner(item)
+    except CaseTimeout:
+        signal.alarm(0)
+        return item[0], {"fails": [F("T", "case timed out after %ss" % _W["prop"].case_timeout, "timeout")], "nontrivial": False, "tags": ["timeout"]}
+
+
+def _w_eval_inner(item):
     idx, case, b_only = item
     prop = _W["prop"]
     drv = None if b_only else _W["driver"]
